@@ -933,10 +933,15 @@ impl TypeLayout {
     }
 
     pub fn assume_type_of_self(self, user_data: &AssocFileData) -> TypeLayout {
-        if self.is_class_self() {
-            TypeLayout::Class(user_data.get_type_of_executing_class().unwrap().clone())
-        } else {
-            self
+        if !self.is_class_self() {
+            return self;
+        }
+
+        // outside of a class there is nothing `Self` could stand for: the type stays unresolved
+        // and the lookup that asked for it reports that
+        match user_data.get_type_of_executing_class() {
+            Some(class_type) => TypeLayout::Class(class_type.clone()),
+            None => self,
         }
     }
 
